@@ -15,6 +15,8 @@ mkdir -p "$D" "$OUT"
 rsync -a --exclude target --exclude .git /repo/ "$D/repo/"
 if [ "$patch" != none ]; then
   (cd "$D/repo" && git apply "$patch") || { echo "patch does not apply"; rm -rf "$D"; exit 3; }
+  # make sure cargo sees the patched files as newer than any existing build output
+  (cd "$D/repo" && git apply --numstat "$patch" | awk '{print $3}' | while read -r f; do [ -f "$f" ] && touch -d '+1 hour' "$f"; done)
 fi
 rsync -a --exclude work --exclude .git --exclude seeded --exclude 'coq/.build.lock' --exclude '.repo.lock' /verif/ "$D/verif/"
 mkdir -p "$D/verif/work" "$D/verif/evidence/replays"
